@@ -478,7 +478,7 @@ pub fn check(prop_id: &str, tier: &str, verif_seed: u64) -> i32 {
             println!("HARNESS-ERROR missing reproducer {}", path.display());
             return 2;
         }
-        let out = run_replay_file(&path, Duration::from_secs(30));
+        let out = run_replay_file(&path, Duration::from_secs(12));
         let reproduced = out.class() == f.oracle;
         if f.status == "open" {
             if reproduced {
